@@ -208,6 +208,9 @@ class HBatch(BatchBase):
     def __repr__(self):
         return "HBatch(%s)" % (self.bid,)
 
+    def __str__(self):
+        return "HBatch#%s%s" % (self.rt.label, self.bid)
+
     def _try_switch_active_batch(self):
         rt = self.rt
         ev = rt.evil
@@ -253,9 +256,10 @@ class HItem(BatchItemBase):
 
     def _on_done(self, _f):
         self.completions += 1
+        self.rt.emit("item_done", self.inst)
 
     def __repr__(self):
-        return "HItem(%s,%s)" % (self.kind, self.key)
+        return "HItem#%s(%s,%s)" % (self.rt.label, self.kind, self.key)
 
 
 # ---------------------------------------------------------------------------
@@ -419,6 +423,7 @@ class HarnessRT(object):
         self.evil_fired = 0
         self.book = None
         self.track_running = True
+        self.label = ""
         self.live_ctx = {}
         self.live_na = {}
         self.ctx_faults = prog.get("ctx_faults")
@@ -435,7 +440,7 @@ class HarnessRT(object):
         self.before_count = 0
 
     def __repr__(self):
-        return "rt"
+        return "rt#%s" % (self.label,)
 
     # ---- logging
     def emit(self, *ev):
@@ -621,6 +626,10 @@ class HarnessRT(object):
         fut = make_task(self.style_of(nid), self, fr)
         self.tasks[path] = fut
         self.emit("create", path)
+        try:
+            fut.on_computed.subscribe(lambda _t, p=path: self.emit("computed", p))
+        except AttributeError:
+            pass
         return fut
 
     def _lazy(self, site, inst, mode):
